@@ -61,6 +61,31 @@ func fixedCases(tier string) [][]hx.T {
 		hx.C("OReq", 3, 8, rt(2, "MEcho"), 4), hx.C("OClose", 1), hx.C("OClose", 2), hx.C("OConnect", 4, false, 0), hx.C("OConnect", 5, false, 1),
 		hx.C("OConnect", 6, false, 2), hx.C("OReq", 4, 8, rt(0, "MEcho"), 5), hx.C("OReq", 5, 8, rt(2, "MNever"), 6), hx.C("OAdvance"),
 		hx.C("OReq", 4, 9, rt(2, "MEcho"), 7), hx.C("OReq", 5, 9, rt(2, "MEcho"), 8)})
+	// a well-framed packet whose message cannot be decoded ends the connection: nothing of it is answered
+	// afterwards, what was answered before stays, the other connection is undisturbed
+	for k := int64(0); k <= 4; k++ {
+		out = append(out, []hx.T{hx.C("OConnect", 1, false, 1), hx.C("OConnect", 2, false, 2), hx.C("OReq", 1, 5, rt(2, "MEcho"), 1), hx.C("HBadMsg", 1, 6, k),
+			hx.C("OReq", 1, 7, rt(0, "MEcho"), 2), hx.C("ONotify", 1, rt(0, "MEcho"), 3), hx.C("OReq", 1, 8, rt(2, "MEcho"), 4), hx.C("OReq", 2, 8, rt(2, "MEcho"), 5), hx.C("OAdvance"),
+			hx.C("OReq", 2, 6, rt(0, "MEcho"), 6)})
+	}
+	out = append(out, []hx.T{hx.C("OConnect", 1, false, 1), hx.C("OReq", 1, 5, rt(2, "MNever"), 1), hx.C("HBadMsg", 1, 5, 1), hx.C("OReq", 1, 6, rt(0, "MEcho"), 2), hx.C("OAdvance")},
+		// in the handshake state data packets are ignored, bad ones too
+		[]hx.T{hx.C("OConnect", 1, false, 1), hx.C("OHandshake", 1), hx.C("HBadMsg", 1, 6, 0), hx.C("OAck", 1), hx.C("OReq", 1, 7, rt(2, "MEcho"), 1), hx.C("HBadMsg", 1, 8, 3), hx.C("OReq", 1, 9, rt(0, "MEcho"), 2)},
+		[]hx.T{hx.C("OProto"), hx.C("OConnect", 1, false, 1), hx.C("OReq", 1, 5, rt(0, "MEcho"), 1), hx.C("HBadMsg", 1, 6, 2), hx.C("OReq", 1, 7, rt(0, "MEcho"), 2)})
+	// notifications sent right before the client goes away, while the front-end is busy: the network
+	// side has marked the session closed when the service gets to them - each is still handed to its
+	// handler exactly once, front-local and forwarded
+	for _, pr := range []bool{false, true} {
+		var ops []hx.T
+		if pr {
+			ops = append(ops, hx.C("OProto"))
+		}
+		ops = append(ops, hx.C("OConnect", 1, false, 1), hx.C("OConnect", 2, false, 2), hx.C("OReq", 1, 1, rt(0, hx.C("MSetKey", 1)), 1),
+			hx.C("HGone", 1, 40, []any{hx.Pair{A: rt(0, "MEcho"), B: int64(2)}, hx.Pair{A: rt(2, "MEcho"), B: int64(3)}, hx.Pair{A: rt(1, "MEcho"), B: int64(4)},
+				hx.Pair{A: rt(0, "MNote"), B: int64(5)}, hx.Pair{A: rt(2, "MNote"), B: int64(6)}, hx.Pair{A: rt(2, "MEchoLater"), B: int64(7)}}),
+			hx.C("OReq", 2, 3, rt(0, "MEcho"), 9), hx.C("ONotify", 2, rt(2, "MEcho"), 10), hx.C("HGone", 2, 30, []any{hx.Pair{A: rt(0, "MEcho"), B: int64(11)}}))
+		out = append(out, ops)
+	}
 	// pipelined burst with a client that does not read: > 9999 responses pending on one
 	// connection (front-local, then forwarded); every request still gets exactly one response
 	out = append(out, []hx.T{hx.C("OConnect", 1, false, 1), hx.C("HBurst", 1, 1000, 1000, 4000, 11000, 1500),
@@ -306,7 +331,28 @@ func gen(cfg *hx.Config, i int) ([]hx.T, []string) {
 				closedSlots = append(closedSlots, slotOf[c])
 				delete(slotOf, c)
 			}
-			ops = append(ops, hx.C("OClose", c))
+			if connected[c] || closedTok[c] {
+				switch r.Intn(6) {
+				case 0:
+					// a message the server cannot decode ends the connection
+					tags["undecodable-message"] = true
+					ops = append(ops, hx.C("HBadMsg", c, mid(), int64(r.Intn(5))))
+					break
+				case 1, 2:
+					// the client goes away right after notifications, while the front-end is busy
+					tags["notify-then-gone"] = true
+					nots := []any{}
+					for j := 1 + r.Intn(4); j > 0; j-- {
+						nots = append(nots, hx.Pair{A: route(), B: tag})
+						tag++
+					}
+					ops = append(ops, hx.C("HGone", c, int64(25+r.Intn(20)), nots))
+				default:
+					ops = append(ops, hx.C("OClose", c))
+				}
+			} else {
+				ops = append(ops, hx.C("OClose", c))
+			}
 		default:
 			ops = append(ops, hx.C("OConnect", c, false, freshSlot())) // token already used: ignored
 		}
